@@ -53,7 +53,7 @@ class Gen:
         r = self.rng.random()
         if r < 0.5:
             return self.int_term(allow_lit)
-        if allow_lit and r < 0.6:
+        if allow_lit and self.p_lit > 0 and r < 0.6:
             return ['lit', self.rng.choice(['', 'u', None, True, False, [], [1, 2]])]
         o = self.obj()
         if r < 0.7:
@@ -68,7 +68,7 @@ class Gen:
 
     def container(self):
         r = self.rng.random()
-        if r < 0.2:
+        if r < 0.2 and self.p_lit > 0:
             return ['lit', [self.rng.choice(INT_ALPHA) for _ in range(self.rng.randint(0, 3))]]
         return ['map', ['f', F['items' if r < 0.8 else 'pair']], self.obj()]
 
@@ -143,13 +143,13 @@ def cond_keys(c, acc):
     return acc
 
 
-def gen_case(rng, nvars=None, falsy=True, neg=True, maxdepth=3, select='all', dom_max=4, empty_dom=False):
+def gen_case(rng, nvars=None, falsy=True, neg=True, maxdepth=3, select='all', dom_max=4, empty_dom=False, p_lit=0.3):
     """select: 'all' (every variable, random order) | 'some' (random non-empty subset, may include expressions)"""
     from qcase import term_keys
     nvars = nvars or rng.choice([1, 1, 2, 2, 3])
     nobj = rng.randint(2, 7)
     heap = gen_heap(rng, nobj, falsy)
-    g = Gen(rng, nvars, falsy=falsy, neg=neg, maxdepth=maxdepth)
+    g = Gen(rng, nvars, falsy=falsy, neg=neg, maxdepth=maxdepth, p_lit=p_lit)
     doms = []
     for k in g.keys:
         n = rng.randint(0 if empty_dom and rng.random() < 0.1 else 1, min(dom_max, nobj))
@@ -302,6 +302,39 @@ def gen_case_concat(rng, tier):
         cond = ['not', cond, 'fn']
     return dict(heap=heap, doms=doms, binders=[['concat', 6, 1, ct], ['var', 2]], sel=[['var', 2]], cond=cond,
                 form='entity' if rng.random() < 0.6 else 'set_of')
+
+
+def gen_case_join(rng, tier=None):
+    """literal-free joins: three variables over larger domains, attribute values in {0, 1} (so that equalities hold often),
+    full binary and/or trees of depth 2-3 whose leaves compare attributes of one or two variables; every variable selected.
+    This is the shape in which operator result caches are hit with partially bound keys."""
+    nobj = rng.randint(6, 10)
+    heap = gen_heap(rng, nobj, falsy=True)
+    for o in heap:
+        o[0], o[1] = rng.randint(0, 1), rng.randint(0, 1)
+        o[8] = o[0] >= 2
+    keys = [1, 2, 3]
+    doms = [[k, rng.sample(range(nobj), rng.randint(2, min(6, nobj)))] for k in keys]
+
+    def leaf():
+        x, y = rng.choice(keys), rng.choice(keys)
+        l = ['map', ['f', F[rng.choice('ab')]], ['var', x]]
+        r = ['map', ['f', F[rng.choice('ab')]], ['var', y]]
+        if l == r:
+            r = ['map', ['f', F['b' if l[1][1] == F['a'] else 'a']], ['var', y]]
+        return ['cmp', rng.choice(['==', '==', '==', '!=', '<=']), l, r]
+
+    def tree(d, top):
+        if d == 0:
+            return leaf()
+        k = 'and' if (top and rng.random() < 0.7) or (not top and rng.random() < 0.3) else 'or'
+        return [k, tree(d - 1, False), tree(d - 1, False), rng.choice(['fn', 'op'])]
+    cond = tree(rng.choice([2, 2, 3]), True)
+    used = cond_keys(cond, set())
+    sel = [['var', k] for k in keys if k in used]
+    rng.shuffle(sel)
+    return dict(heap=heap, doms=[d for d in doms if d[0] in used], binders=[['var', k] for k in keys if k in used], sel=sel,
+                cond=cond, form='set_of')
 
 
 # ------------------------------------------------------------------------------------------------ rewrites (C18)
